@@ -48,6 +48,17 @@ fn confs() -> Vec<Conf> {
         Conf { name: "none", cfg: Cfg::default() },
         Conf { name: "observers", cfg: Cfg::with(everything) },
         Conf { name: "streaming insertions with empty pieces", cfg: Cfg::with(streaming.clone()).streaming(true) },
+        // a streaming handler that fails after writing, with more content queued in the same slot
+        // (by the same handler and by a second handler): nothing may follow the failure
+        Conf {
+            name: "failing streaming handler followed by more content in the same slot",
+            cfg: Cfg::with(vec![
+                HSpec::with_ops(HKind::Element, "a", vec![Op::Before(format!("{}one", FAILING_STREAM_PREFIX), true), Op::Before("late1".into(), true), Op::Append("late2".into(), true)]),
+                HSpec::with_ops(HKind::Element, "*", vec![Op::Before("late3".into(), true)]),
+                HSpec::with_ops(HKind::DocText, "", vec![Op::After(format!("{}t", FAILING_STREAM_PREFIX), false), Op::After("late4".into(), true)]),
+            ])
+            .streaming(true),
+        },
         Conf { name: "streaming insertions with empty pieces (windows-1252)", cfg: Cfg::with(streaming).streaming(true).enc("windows-1252") },
         Conf { name: "empty-payload markers", cfg: Cfg::with(empties) },
         Conf { name: "empty names + doc-end appends", cfg: Cfg::with(names) },
@@ -130,7 +141,7 @@ fn run_history(cfg: &Cfg, hist: &[usize], end: bool) -> (RunResult, Prepared) {
 fn check_one(cfg: &Cfg, hist: &[usize], end: bool) -> Option<String> {
     let (rr, _) = run_history(cfg, hist, end);
     let baseline = if rr.first_failure().is_some() {
-        let clean = Cfg { fail_at: None, mem: None, ..cfg.clone() };
+        let clean = Cfg { fail_at: None, mem: None, ..cfg.clone() }.streaming(false);
         Some(run_history(&clean, hist, true).0)
     } else {
         None
@@ -194,7 +205,9 @@ pub fn run_check(ctx: &Ctx) -> i32 {
                         ctx.nontrivial.insert(digest(&(&hist, end, cfg)));
                     }
                     let baseline = if rr.first_failure().is_some() {
-                        let clean = Cfg { fail_at: None, mem: None, ..cfg.clone() };
+                        // the complete run: no injected fault, and streaming handlers that do not
+                        // fail (the same content through the non-streaming calls)
+                        let clean = Cfg { fail_at: None, mem: None, ..cfg.clone() }.streaming(false);
                         Some(run_history(&clean, &hist, true).0)
                     } else {
                         None
